@@ -3,7 +3,7 @@
 (* explicit version id (the property's scope), weighted towards multipart       *)
 (* uploads (several pending at once, interleaved over two keys), conditional    *)
 (* deletes, copies and appends with offsets.                                    *)
-EXTENDS PithosGen
+EXTENDS PithosGen, Replication
 
 NoVidOf(c) ==
   LET c1 == IF "vid" \in DOMAIN c THEN [c EXCEPT !.vid = -1] ELSE c
@@ -11,10 +11,48 @@ NoVidOf(c) ==
 
 ROpW == <<"CreateBucket", "DeleteBucket", "PutVersioning", "PutVersioning",
           "PutObject", "PutObject", "PutObject", "GetObject",
-          "DeleteObject", "DeleteObject", "DeleteObject", "CopyObject", "CopyObject", "CopyObject",
+          "DeleteObject", "DeleteObject", "DeleteObjects", "DeleteObjects", "DeleteObjects", "CopyObject", "CopyObject", "CopyObject",
           "AppendObject", "AppendObject", "AppendObject",
           "CreateUpload", "CreateUpload", "UploadPart", "UploadPart", "UploadPart", "UploadPartCopy", "UploadPartCopy",
           "CompleteUpload", "CompleteUpload", "CompleteUpload", "AbortUpload", "PutTagging", "PutTagging", "Transition">>
 ROpWSel == SelectSeq(ROpW, LAMBDA o : o \in Ops)
-RGenNext == GStep(NoVidOf(RandCall(RW(ROpWSel), S)))
+\* bulk deletes: one or both keys in either order, each entry unconditional, with the current ETag or a stale one
+BCondW == <<"none", "none", "ifm-cur", "ifm-cur", "ifm-stale", "ifm-stale">>
+RandBulk(St) ==
+  LET b == PB(St)
+      k1 == PK(St, b)
+      two == R(1..2) = 1
+      k2 == CHOOSE k \in Keys : k # k1 \/ Cardinality(Keys) = 1
+      e1 == [k |-> k1, cond |-> RW(BCondW)]
+      e2 == [k |-> k2, cond |-> RW(BCondW)]
+  IN [op |-> "DeleteObjects", b |-> b, entries |-> IF two /\ k2 # k1 THEN <<e1, e2>> ELSE <<e1>>]
+RRandCall(op, St) == IF op = "DeleteObjects" THEN RandBulk(St) ELSE NoVidOf(RandCall(op, St))
+\* the situation of a bulk delete: versioning state and, per entry, condition x object present x outcome
+BulkSit(St, c) ==
+  IF c.op = "DeleteObjects" /\ St.bver[c.b] # "Absent"
+  THEN LET out == BulkDelete(St, c).ents IN
+       {<<"bulk", St.bver[c.b], c.entries[i].cond, HasCurrent(St.objs[c.b][c.entries[i].k]), out[i].deleted>> : i \in 1..Len(c.entries)}
+       \cup (IF (\E i \in 1..Len(out) : out[i].deleted) /\ (\E i \in 1..Len(out) : ~out[i].deleted)
+             THEN {<<"bulk-mixed", St.bver[c.b]>>} ELSE {})
+  ELSE {}
+\* (the variables of Replication.tla are not used by the generator)
+Aux == Sec = <<>> /\ umap = <<>> /\ serr = <<>>
+XStep(c) == /\ S' = XApply(S, c).s /\ res' = XApply(S, c).r /\ hist' = Append(hist, c)
+            /\ UNCHANGED <<Sec, umap, serr>>
+RGenInit == GenInit /\ Aux
+RGStep(c) == XStep(c) /\ sits' = Append(sits, IF c.op = "DeleteObjects" THEN <<"DeleteObjects", BulkSit(S, c)>>
+                                                 ELSE Sit(S, c, XApply(S, c).r))
+RGenNext == LET op == RW(ROpWSel) IN RGStep(RRandCall(op, S))
+
+\* ---------------------------------------------------------------- bulk-delete cover (BFS)
+\* the first (shortest) program into every bulk-delete situation; always added to the random programs
+BStep(c) == XStep(c) /\ sits' = <<BulkSit(S, c)>>
+BCoverInit == Init /\ Aux /\ sits = <<>> /\ TLCSet(9, {})
+BCoverNext == S.clock < MaxClock /\ \E c \in {x \in Calls(S) : NoVid(x)} \cup BulkCalls : BStep(c)
+BulkCover ==
+  IF sits = <<>> THEN TRUE
+  ELSE LET new == {ToString(x) : x \in sits[1]} \ TLCGet(9) IN
+       IF new = {} THEN TRUE
+       ELSE TLCSet(9, TLCGet(9) \cup new) /\ PrintT(ToJson([calls |-> hist, keys |-> {ToString(x) : x \in sits[1]}]))
+BCoverView == <<S, sits>>
 =============================================================================
